@@ -3036,6 +3036,10 @@ func ruleErr1(c *Ctx, r *Reporter) {
 					r.ok(key, c.pos(in.Pos()), "closing a handle obtained from os.Open (read-only): nothing to lose")
 					continue
 				}
+				if f != nil && f.Pkg() != nil && (f.Pkg().Path() == "strings" && strings.HasPrefix(callee, "Builder.Write") || f.Pkg().Path() == "bytes" && strings.HasPrefix(callee, "Buffer.Write")) {
+					r.ok(key, c.pos(in.Pos()), "in-memory writer of the standard library: the error result is documented to be always nil")
+					continue
+				}
 				if reason, ok := err1AnyCaller[callee]; ok {
 					r.ok(key, c.pos(in.Pos()), "best-effort clean-up call: "+reason)
 					continue
